@@ -580,7 +580,14 @@ size_t rtosc_print_arg_val(const rtosc_arg_val_t *arg,
             if(arg->type == 'S')
             {
                 plain = true; // "Symbol": are quotes required?
-                if(*val->s != '_' && !isalpha(*val->s))
+                // reserved words would be scanned as something else
+                static const char* const reserved[] = {
+                    "true", "false", "nil", "inf", "now", "immediately",
+                    "MIDI", "BLOB", NULL };
+                for(const char* const* r = reserved; *r && plain; ++r)
+                    plain = !!strcmp(val->s, *r);
+                if(!plain) {}
+                else if(*val->s != '_' && !isalpha(*val->s))
                     plain = false;
                 else for(const char* s = val->s + 1; *s && plain; ++s)
                     plain = (*s == '_' || (isalnum(*s)));
@@ -955,7 +962,7 @@ static const char* skip_word(const char* exp, const char** str)
     int match = (!strncmp(exp, cur, explen) &&
                  (   !cur[explen]
                   || cur[explen] == '/' || cur[explen] == ']'
-                  || cur[explen] == '.'
+                  || cur[explen] == '.' || cur[explen] == '%'
                   || isspace(cur[explen])));
     if(match) {
         *str += explen;
